@@ -91,12 +91,16 @@ def surface_tables(model: Model):
     out["qubits"] = [q for qs in feed.values() for q in qs]
     ed = ev.expr(L.class_attrs["_qubit_edges"], fr)
     edges = []
+    if ed[0] != "list" or any(e[0] != "new" for e in ed[1]):
+        raise AnalysisError("Surface17Layer._qubit_edges is not read as a list of edge constructions")
     for e in ed[1]:
         d = dict(e[2])
         edges.append((_qid(d.get("qubit_id0")), _qid(d.get("qubit_id1"))))
     out["edges"] = edges
     fg = ev.expr(L.class_attrs["_frequency_group_lookup"], fr)
     groups = {}
+    if fg[0] != "dict":
+        raise AnalysisError("Surface17Layer._frequency_group_lookup is not read as a dict of constructions")
     for k, v in fg[1]:
         g = dict(v[2]).get("_id") if v[0] == "new" else None
         groups[_qid(k)] = g[2] if g is not None and g[0] == "enum" else None
@@ -104,6 +108,8 @@ def surface_tables(model: Model):
     pgs = []
     for attr in ("_parity_group_x", "_parity_group_z"):
         pg = ev.expr(L.class_attrs[attr], fr)
+        if pg[0] != "list" or any(g[0] != "new" for g in pg[1]):
+            raise AnalysisError(f"Surface17Layer.{attr} is not read as a list of parity-group constructions")
         for g in pg[1]:
             d = dict(g[2])
             pgs.append((attr[-1], _qid(d.get("_ancilla_qubit")), [_qid(x) for x in d.get("_data_qubits")[1]]))
